@@ -26,11 +26,11 @@ PROPS = {
             "(fail-before-effect only)",
             "an interface whose rollback delete was itself failed by injection may remain without a record (nothing could delete it; it carries the controller tags for the leak collector) - counted under label leak:rollback-delete-failed",
         ],
-        level_text="about 3000 generated histories per quick run (150000 thorough) of the two real reconcilers in every drawn order with cloud and API faults, each step checked; exploration, not proof",
+        level_text="about 4000 generated histories per quick run (150000 thorough) of the two real reconcilers in every drawn order with cloud and API faults, each step checked; exploration, not proof",
         level_note="the controllers read through the same client they write (no informer-cache staleness); the two controllers run sequentially except for one drawn action nested inside a cloud call; "
                    "work-queue retry timing, leader election, the daemon side of pkg/eni/remote.go and real ECS asynchrony are not modelled; error results after a cloud effect (timeouts) are not injected; "
                    "liveness is only checked as bounded settling (8 rounds)",
-        tests=[dict(unit="c10loop", test="TestVerifC10ClosedLoop", quick=3000, thorough=150000),
+        tests=[dict(unit="c10loop", test="TestVerifC10ClosedLoop", quick=4000, thorough=150000),
                dict(unit="c10loop", test="TestVerifC10KnownDetachingFromNonBind", quick=1, thorough=1, shards=1),
                dict(unit="c10loop", test="TestVerifC10KnownDetachingFromUnbind", quick=1, thorough=1, shards=1),
                dict(unit="c10loop", test="TestVerifC10KnownRollbackStops", quick=1, thorough=1, shards=1)],
